@@ -30,7 +30,13 @@ use {
     std::time::Instant,
 };
 
+#[cfg(anthem_verif)]
+use crate::verif::sim::{print, println};
+
 pub fn main() -> Result<()> {
+    #[cfg(anthem_verif)]
+    use crate::verif::sim::{Arguments, Instant};
+
     match Arguments::parse().command {
         Command::Analyze { property, input } => {
             match property {
